@@ -26,7 +26,7 @@ ASSUMPTIONS = ['where the property is silent (a pass inside a jump-off, moving t
                'has attempted or retired, a competition in which nobody clears anything) the implementation\'s answer is '
                'accepted and the history is cut there (counted as truncated:*)',
                'unknown bibs are not part of the alphabet (the property quantifies over the competition\'s bibs)']
-RULE = RULE + '; where the reference model stops giving verdicts (pass in a jump-off, bar moved early, nobody cleared anything) plays and machine runs continue for 25-40 calls under the universal clauses only (no trial after retiring / clearing / passing / a fourth attempt, nothing after finished or drawn, stage never regresses, refusals change nothing)'
+RULE = RULE + '; late and duplicate entries also with the optional start-list keywords (order=DNS / DQ, names, category); one play in five records its trials through bib_trial(bib, letter), with unknown letters among the forbidden calls; where the reference model stops giving verdicts (pass in a jump-off, bar moved early, nobody cleared anything) plays and machine runs continue for 25-40 calls under the universal clauses only (no trial after retiring / clearing / passing / a fourth attempt, nothing after finished or drawn, stage never regresses, refusals change nothing)'
 
 BIBS = ['A', 'B', 'C', 'D']
 
@@ -168,7 +168,14 @@ def shard_plays(ctx, payload):
         # exactly representable - the rules are about the heights, not about their binary representation
         fh = (i % 6 == 5)
         ib = (i % 8 == 3)           # one play in eight uses numbers as bibs (start lists usually do)
-        hjplay.random_play(rng.randrange, on_call, noise=20, nmin=1, float_heights=fh, tail=40, int_bibs=ib)
+        # one play in five records clearances, failures and retirements through the card-letter entry point bib_trial
+        hjimpl.VIA_TRIAL = (i % 5 == 2)
+        try:
+            hjplay.random_play(rng.randrange, on_call, noise=20, nmin=1, float_heights=fh, tail=40, int_bibs=ib)
+        finally:
+            if hjimpl.VIA_TRIAL:
+                ctx.label('play-via-bib_trial')
+            hjimpl.VIA_TRIAL = False
         ctx.label('play-float-heights' if fh else 'play')
         if ib:
             ctx.label('play-number-bibs')
